@@ -521,3 +521,18 @@ Definition allw_case := (graph * list (N * N * xres))%type.
 Definition check_allw (c : allw_case) : N :=
   let '(g, items) := c in
   vall (map (fun it => let '(from, to, r) := it in if allw_oracle g from to r then V_OK else V_VIOLATION) items).
+
+(* ---------------------------------------------------------------- variable-length PATTERN matching: oracle only.
+   (n_from)-[p:*min..max]->(n_to) must bind p to exactly the simple paths within the hop bounds that
+   follow edges of the requested type in the requested direction (order-insensitive, none twice) *)
+Definition pat_oracle (g : graph) (c : vcfg) (from to : N) (r : vres) : bool :=
+  match r with
+  | VOk ps =>
+      node_exists g from && node_exists g to &&
+      let ref := ref_var_paths g c from to in
+      subset_paths ps ref && subset_paths ref ps && nodup_paths ps
+  | _ => false
+  end.
+Definition check_pat (c : varp_case) : N :=
+  let '(g, cfg, items) := c in
+  vall (map (fun it => let '(from, to, r) := it in if pat_oracle g cfg from to r then V_OK else V_VIOLATION) items).
